@@ -1,5 +1,7 @@
 import UmProofs.ProtoFuel
 import UmProofs.ProtoCompactIdx
+import UmProofs.ProtoCommit
+import UmProofs.BrokerViewPartF
 /-!
 # C17 — Control-plane messages survive their wire encodings
 
@@ -10,9 +12,10 @@ lists; equality of metas is stated up to the order of node groups (`MetaEquiv`, 
 `order` is the (arbitrary) iteration order of the five-entry config map, `dec`/`Codec` the
 abstract JSON∘gzip∘base64 codec.
 
-Stated gap (not in this file): `C17_task_commit` — that the broker's `commit_migration`
-accepts the descriptor a proxy reports as naming exactly the pending migration — needs the
-broker model (C10) and is out of scope here.
+`C17_task_commit` links the descriptor journey to the broker model (`UmModel/Broker.lean`,
+C10's `commitCore_pending`, C01's `cinv_run`): the descriptor reported for any stored migration
+entry — by the source *or* the destination proxy — is accepted by `commit_migration` and commits
+exactly that migration.
 -/
 namespace Um.Proto.C17
 open Um Um.Proto Um.Gen.Proto
@@ -230,6 +233,55 @@ theorem C17_switch_rejects_invalid (arr : List Elem)
     (h : ∃ e ∈ arr, e.Invalid ∧ ∀ b, e ≠ .simple b ∨ validUtf8 b = false) : parseSwitchCommand (some arr) = none := by
   simp [parseSwitchCommand, strictStrings_invalid arr h]
 
+/-! ## the reported descriptor and the broker (`C17_task_commit`) -/
+
+open Um.Broker Um.Broker.Scale in
+/-- **C17_task_commit**: in a cluster satisfying the store invariants, for every stored migration
+entry `m` — migrating (what the source proxy is served) or importing (the destination proxy) —
+the served slot range exists (`to_slot_range` does not panic), its `MigrationTaskMeta` survives
+`into_strings` → `join " "` → `split ' '` → `from_strings`, `commit_migration` reads from it the
+entry's range list and epoch with "tag is not None", and `commitMigrationCore` accepts it and
+commits exactly that migration: the result is C10's `commitRes` for the entry's migrating twin
+`m₀` (same ranges, same meta).  `enc` is the UTF-8 encoding of the address strings, `nm` the
+cluster name's bytes. -/
+theorem C17_task_commit {s : Store} {name : String} {c : Cluster} (hf : s.findCluster name = some c)
+    (hp : PosInv c) (ht : TwinInv c) (hs : SlotInv c) {m : MigStore} (hm : m ∈ c.migs)
+    (enc : String → Str) (nm : Str) (hn : validClusterName nm = true) (he : m.mm.epoch ≤ u64Max)
+    (hsp : (entryDesc enc nm c.chunks m).slotRange.tag.SpaceFree) :
+    toSlotRange m c.chunks = R.ok (toSlotRangeP c.chunks m) ∧
+    infoMgrDecode (infoMgrEncode (entryDesc enc nm c.chunks m)) = some (entryDesc enc nm c.chunks m) ∧
+    commitArgs (entryDesc enc nm c.chunks m) = (m.ranges, m.mm.epoch, false) ∧
+    ∃ m₀ ∈ c.migs, m₀.isMigrating = true ∧ m₀.ranges = m.ranges ∧ m₀.mm = m.mm ∧
+      ∃ A dch B t, c.chunks = A ++ dch :: B ∧ A.length = m.mm.dstChunk ∧
+        t.isMigrating = false ∧ t.ranges = m.ranges ∧ t.mm = m.mm ∧
+        ((m.mm.dstPart = 0 ∧ t ∈ dch.mig0) ∨ (m.mm.dstPart = 1 ∧ t ∈ dch.mig1)) ∧
+        commitMigrationCore s name m.ranges m.mm.epoch false =
+          ((s.setCluster { c with chunks := commitRes m.ranges m.mm A dch B, epoch := s.globalEpoch + 1 }).bump,
+            R.ok ()) :=
+  task_commit hf hp ht hs hm enc nm hn he hsp
+
+open Um.Broker Um.Broker.Scale Um.Broker.Plan in
+/-- … in every state of every bounded run of broker operations (C01's `cinv_run`): any order of
+scalings, commits, failovers; `PlanBound` = no cluster has more than `SLOT_NUM` masters. -/
+theorem C17_task_commit_run (ops : List Op) (hb : ∀ k, PlanBound (run (ops.take k)))
+    {name : String} {c : Cluster} (hf : (run ops).findCluster name = some c) {m : MigStore} (hm : m ∈ c.migs)
+    (enc : String → Str) (nm : Str) (hn : validClusterName nm = true) (he : m.mm.epoch ≤ u64Max)
+    (hsp : (entryDesc enc nm c.chunks m).slotRange.tag.SpaceFree) :
+    infoMgrDecode (infoMgrEncode (entryDesc enc nm c.chunks m)) = some (entryDesc enc nm c.chunks m) ∧
+    commitArgs (entryDesc enc nm c.chunks m) = (m.ranges, m.mm.epoch, false) ∧
+    ∃ s', commitMigrationCore (run ops) name m.ranges m.mm.epoch false = (s', R.ok ()) := by
+  obtain ⟨hp, ht, hs⟩ := cinv_run ops hb c (Store.findCluster_mem hf)
+  obtain ⟨_, h2, h3, _, _, _, _, _, _, _, _, _, _, _, _, _, _, _, h4⟩ := task_commit hf hp ht hs hm enc nm hn he hsp
+  exact ⟨h2, h3, _, h4⟩
+
+open Um.Broker in
+/-- a descriptor with tag `None` is refused with `INVALID_MIGRATION_TASK`, nothing changes -/
+theorem C17_task_commit_none (s : Store) (name : String) (t : TaskMeta) (ht : t.slotRange.tag = .none)
+    (c : Cluster) (hf : s.findCluster name = some c) :
+    (commitArgs t).2.2 = true ∧
+    commitMigrationCore s name (commitArgs t).1 (commitArgs t).2.1 (commitArgs t).2.2 = (s, R.err Err.invalidMigrationTask) :=
+  task_commit_none s name t ht c hf
+
 /-! ## totality -/
 
 /-- the two `expect`s in `RangeList::compact` never fire; the index loop computes `compact` -/
@@ -282,5 +334,17 @@ example : SlotRange.fromStrings [[43, 51], [57, 45, 53], [49, 45, 50], [48, 51, 
 
 /-- the wrapping `end + 1` of the release build: `0-MAX` does not absorb `5-6` -/
 example : compact [⟨0, u64Max⟩, ⟨5, 6⟩] = [⟨0, u64Max⟩, ⟨5, 6⟩] := by decide
+
+/-- `C17_task_commit` on the *importing* entry of C01's worked example (two migrations in flight) -/
+example : ∃ s', Um.Broker.commitMigrationCore { Um.Broker.Store.init with globalEpoch := 7, clusters := [Um.Broker.exCluster] }
+    "c" [(4096, 8191)] 7 false = (s', Um.Broker.R.ok ()) := by
+  have h := C17_task_commit (s := { Um.Broker.Store.init with globalEpoch := 7, clusters := [Um.Broker.exCluster] })
+    (name := "c") (c := Um.Broker.exCluster) rfl Um.Broker.exCluster_inv.1 Um.Broker.exCluster_inv.2.1
+    Um.Broker.exCluster_inv.2.2
+    (m := { ranges := [(4096, 8191)], isMigrating := false, mm := Um.Broker.exMeta0 })
+    (by simp [Um.Broker.Cluster.migs, Um.Broker.Chunk.migs, Um.Broker.exCluster, Um.Broker.exChunk0, Um.Broker.exChunk1])
+    (fun _ => [120]) [99] (by decide) (by decide) (by decide)
+  obtain ⟨_, _, _, _, _, _, _, _, _, _, _, _, _, _, _, _, _, _, h4⟩ := h
+  exact ⟨_, h4⟩
 
 end Um.Proto.C17
